@@ -20,9 +20,9 @@ func init() {
 		Assumptions: []string{"genomes are well-formed; modular genomes are duplicated and then mutated only by the mutators which do not need a network"},
 		Cases: func(tier string) int {
 			if tier == "quick" {
-				return 160
+				return 3200
 			}
-			return 1600
+			return 16000
 		},
 		Run:      runC06,
 		Required: []string{"duplications", "duplications.modular", "duplications.with_disabled", "duplications.with_recurrent", "duplications.with_nil_trait", "spawned.organisms", "followup.mutations"},
